@@ -8,7 +8,10 @@ require (
 	github.com/splunk/stef/go/pkg v0.1.1
 )
 
-require github.com/klauspost/compress v1.18.4 // indirect
+require (
+	github.com/klauspost/compress v1.18.4
+	modernc.org/b/v2 v2.1.10 // indirect
+)
 
 replace (
 	github.com/splunk/stef/go/grpc => /repo/go/grpc
